@@ -880,6 +880,36 @@ Proof.
   - intros Hlk. destruct (i_lock _ _ _ _ _ _ HI Hlk) as [y [Hy Hh]]. exists y. split; [right; exact Hy | exact Hh].
 Qed.
 
+(* a burst of overlapping (un)subscriptions: the threads of the table stand still, the bus and
+   the monitor's set move together *)
+Lemma par_shape_ok acts : forall i, par_shape acts (par_obs i acts) = true.
+Proof.
+  induction acts as [|a r IH]; intros i; [reflexivity|].
+  destruct a as [l h | l h |]; cbn [par_obs par_shape]; [| |apply IH]; rewrite item_eqb_refl; apply IH.
+Qed.
+
+Lemma par_step_ok sc lk thr nx acts : forall i b m,
+  InvC b sc lk thr nx m ->
+  exists m', mon_list m (par_obs i acts) = (m', []) /\ InvC (par_bus acts b) sc lk thr nx m'.
+Proof.
+  induction acts as [|a r IH]; intros i b m HI.
+  - exists m. split; [reflexivity | exact HI].
+  - destruct a as [l h | l h |]; cbn [par_obs par_bus act_bus].
+    + assert (InvC (subscribe (l, h) b) sc lk thr nx (m_setto m (set_add (l, h) (m_set m)))) as HI1.
+      { apply InvC_set with (b := b); [| |exact HI].
+        - intros j. rewrite set_add_In, subscribe_In. rewrite (i_set _ _ _ _ _ _ HI j). tauto.
+        - apply subscribe_NoDup. exact (i_bus _ _ _ _ _ _ HI). }
+      destruct (IH (N.succ i) _ _ HI1) as [m' [Hm HI']]. exists m'. split; [|exact HI'].
+      cbn [mon_list mon_obs]. fold (m_setto m (set_add (l, h) (m_set m))). rewrite Hm. reflexivity.
+    + assert (InvC (unsubscribe (l, h) b) sc lk thr nx (m_setto m (set_remove (l, h) (m_set m)))) as HI1.
+      { apply InvC_set with (b := b); [| |exact HI].
+        - intros j. rewrite set_remove_In, unsubscribe_In. rewrite (i_set _ _ _ _ _ _ HI j). tauto.
+        - apply unsubscribe_NoDup. exact (i_bus _ _ _ _ _ _ HI). }
+      destruct (IH (N.succ i) _ _ HI1) as [m' [Hm HI']]. exists m'. split; [|exact HI'].
+      cbn [mon_list mon_obs]. fold (m_setto m (set_remove (l, h) (m_set m))). rewrite Hm. reflexivity.
+    + apply IH. exact HI.
+Qed.
+
 Definition op_quiet (o : op) : bool :=
   match o with Script Core _ a => no_pub a | _ => true end.
 
@@ -887,7 +917,7 @@ Lemma step_ok s m o :
   Inv s m -> op_quiet o = true ->
   exists m', mon m o (snd (step s o)) = (m', []) /\ Inv (fst (step s o)) m'.
 Proof.
-  intros HI Hq. destruct o as [l h acts | t a | k | n]; unfold mon.
+  intros HI Hq. destruct o as [l h acts | t a | k | n | acts]; unfold mon.
   - (* Script *)
     exists m. split; [reflexivity|]. unfold Inv. cbn [step fst bus scripts locked threads next_e].
     destruct HI as [H1 H2 H3 H4 H5 H6 H7 H8 H9 H10 H11 H12]. constructor; try assumption.
@@ -904,6 +934,9 @@ Proof.
   - (* Drain *)
     destruct (drain_ok (N.to_nat n) s m HI) as [m' [Hm HI']]. cbn [step]. rewrite Hm.
     exists m'. split; [reflexivity | exact HI'].
+  - (* Par *)
+    destruct (par_step_ok (scripts s) (locked s) (threads s) (next_e s) acts par_base (bus s) m HI) as [m' [Hm HI']].
+    cbn [step snd fst]. rewrite Hm. cbn [shape_ok]. rewrite par_shape_ok. exists m'. split; [reflexivity | exact HI'].
 Qed.
 
 Lemma Inv_init : Inv init minit.
